@@ -1911,7 +1911,7 @@ class ShortcutNode(ListNode):
         else:
             num_jumps = self._num_node
 
-        return f"{num_jumps.format()}{j}"
+        return f"{num_jumps.format().strip()}{j}"
 
     def _all_repeat(self, value, nodes):
         """
@@ -1957,7 +1957,7 @@ class ShortcutNode(ListNode):
             num_repeats = ""
         else:
             num_repeats = self._num_node
-        return ListNode._join_entries(first_val, f"{num_repeats.format()}{r}")
+        return ListNode._join_entries(first_val, f"{num_repeats.format().strip()}{r}")
 
     def _format_multiply(self, carried=None):
         nodes = list(self.nodes)
@@ -1977,7 +1977,7 @@ class ShortcutNode(ListNode):
         else:
             m = "m"
         self._num_node.value = product / base
-        num_str = self._num_node.format()
+        num_str = self._num_node.format().strip()
         # the factor is written with the precision of the original token: check what it denotes
         try:
             written = base * fortran_float(num_str)
@@ -2049,7 +2049,7 @@ class ShortcutNode(ListNode):
         else:
             padding = PaddingNode(" ")
         return ListNode._join_entries(
-            start, f"{num_interp.format()}{interp}{padding.format()}{end.format()}"
+            start, f"{num_interp.format().strip()}{interp}{padding.format()}{end.format()}"
         )
 
 
